@@ -53,7 +53,7 @@ func cmdDeterminism(args []string) error {
 			n := 10 + int(seed%50)
 			for k := 0; k < R; k++ {
 				h := genHistory(rng.New(seed), n, false)
-				seen[h.Line] = true
+				seen[h.Line+"|"+h.ChildrenOrder] = true
 				cs.Size = len(h.Line)
 				if k%4 == 0 {
 					genHistory(rng.New(other+uint64(k)), 20, false) // unrelated work in between
